@@ -279,6 +279,15 @@ class Typer:
                 if defs and all(isinstance(d, ast.Call) and dotted(d.func) in ('getattr', 'float', 'int', 'format_float') for d in defs):
                     return 'num'  # value = getattr(vert, membr) [; value = float(value)]
             return self.kind(inner, depth + 1)
+        if isinstance(elt, ast.Call) and isinstance(elt.func, ast.Name) and self.mod.has_func(elt.func.id) and len(elt.args) == 1 \
+                and isinstance(elt.args[0], ast.Call) and dotted(elt.args[0].func) == 'getattr':
+            # `_helper(getattr(vert, membr))` where the helper returns str(<its parameter, possibly passed through float()>)
+            hf = self.mod.func(elt.func.id)
+            rets = [r.value for r in walk_no_nested(hf) if isinstance(r, ast.Return) and r.value is not None]
+            prm = hf.args.args[0].arg if hf.args.args else None
+            if rets and prm and all(isinstance(r, ast.Call) and dotted(r.func) in ('str', 'format_float') and r.args and
+                                    (dotted(r.args[0]) == prm or (isinstance(r.args[0], ast.Call) and dotted(r.args[0].func) == 'float')) for r in rets):
+                return 'num'
         return self.kind(elt, depth + 1)
 
 
@@ -659,6 +668,13 @@ def run(ctx: Any, prog: Program) -> None:
     if len(scalar_members) < 2:
         raise AnalysisError(f'V17: scalar members written by _export_disp_rowset not found ({scalar_members}); distance and alpha confirmed by hand')
     strs = [c for c in ast.walk(rs) if isinstance(c, ast.Call) and dotted(c.func) in ('str', 'format_float', 'repr', 'format') and c.args]
+    if not strs:
+        # the per-value text may be produced by a module-level helper applied to getattr(vert, member)
+        hcalls = [c for c in ast.walk(rs) if isinstance(c, ast.Call) and isinstance(c.func, ast.Name) and vm.has_func(c.func.id) and len(c.args) == 1
+                  and isinstance(c.args[0], ast.Call) and dotted(c.args[0].func) == 'getattr']
+        if len(hcalls) == 1:
+            rs = vm.func(hcalls[0].func.id)
+            strs = [c for c in ast.walk(rs) if isinstance(c, ast.Call) and dotted(c.func) in ('str', 'format_float', 'repr', 'format') and c.args]
     ctx.shape('C06.V17', len(strs) == 1, vm, rs, '_export_disp_rowset stringifies each member with one call', func='Side._export_disp_rowset', text='row set stringification')
     if len(strs) == 1:
         call = strs[0]
@@ -933,7 +949,7 @@ def run(ctx: Any, prog: Program) -> None:
     def reader_split(fnr: ast.AST, near: str) -> Optional[ast.Call]:
         best = None
         for n in ast.walk(fnr):
-            if isinstance(n, ast.Call) and isinstance(n.func, ast.Attribute) and n.func.attr == 'split' and 'value' in ast.unparse(n.func.value):
+            if isinstance(n, ast.Call) and isinstance(n.func, ast.Attribute) and n.func.attr in ('split', 'partition') and 'value' in ast.unparse(n.func.value):
                 # the split that sits under the branch mentioning `near`
                 p = vm.parents.get(n)
                 while p is not None and p is not fnr:
@@ -949,6 +965,8 @@ def run(ctx: Any, prog: Program) -> None:
             raise AnalysisError(f'V7: cannot locate the composite value writer {wq}/"{prefix}" or its reader split in {rq}')
         sep_arg = sp.args[0] if sp.args else None
         max_arg = sp.args[1] if len(sp.args) > 1 else None
+        if sp.func.attr == 'partition' and len(sp.args) == 1:
+            max_arg = ast.Constant(value=1)          # x.partition(sep) cuts once, like x.split(sep, 1)
         wsep = seps[-1].replace('$', '') if seps else None
         ok_sep = isinstance(sep_arg, ast.Constant) and sep_arg.value == wsep
         ok_max = isinstance(max_arg, ast.Constant) and max_arg.value == len(seps)
